@@ -628,6 +628,13 @@ func selftestMain() int {
 		wg.Wait()
 		ref := hashes[1]
 		ok := true
+		for _, procs := range []int{1, 4, 16} {
+			// a worker that died is never a pass, however alike the deaths
+			if h := hashes[procs]; len(h) > 0 && strings.HasPrefix(h[len(h)-1], "DIED") {
+				fmt.Printf("selftest %s: worker process at GOMAXPROCS=%d %s\n", name, procs, h[len(h)-1])
+				ok = false
+			}
+		}
 		for _, procs := range []int{4, 16} {
 			h := hashes[procs]
 			for i := 0; i < len(ref) || i < len(h); i++ {
